@@ -68,6 +68,22 @@ def natives():
     def n_add(it, a, d, m):
         return F(pm.deref(a[0]).l + pm.deref(a[1]).l)
 
+    def n_assign(op):
+        def h(it, a, d, m):
+            r = a[0]
+            x, y = pm.deref(r).l, pm.deref(a[1]).l
+            while isinstance(r.get(), Ref):
+                r = r.get()
+            r.set(F(x + y if op == "add" else (x - y if op == "sub" else it.ctx.mul(x, y))))
+            return UNIT
+        return h
+
+    def n_sub(it, a, d, m):
+        return F(pm.deref(a[0]).l - pm.deref(a[1]).l)
+
+    def n_mul(it, a, d, m):
+        return F(it.ctx.mul(pm.deref(a[0]).l, pm.deref(a[1]).l))
+
     def n_mul_small(it, a, d, m):
         return F(pm.deref(a[0]).l.scale(a[1].v))
 
@@ -84,6 +100,11 @@ def natives():
         (re.compile(r"<E as ExtensionOf<Felt>>::mul_base"), n_mul_base),
         (re.compile(r"<E as (?:std::ops::)?Add>::add"), n_add),
         (re.compile(r"Felt::mul_small"), n_mul_small),
+        (re.compile(r"<E as (?:std::ops::)?AddAssign>::add_assign"), n_assign("add")),
+        (re.compile(r"<E as (?:std::ops::)?SubAssign>::sub_assign"), n_assign("sub")),
+        (re.compile(r"<E as (?:std::ops::)?MulAssign>::mul_assign"), n_assign("mul")),
+        (re.compile(r"<E as (?:std::ops::)?Sub>::sub"), n_sub),
+        (re.compile(r"<E as (?:std::ops::)?Mul>::mul"), n_mul),
     ]
 
 
@@ -95,7 +116,9 @@ def make_interp():
     consts = pm.base_consts(REPO)
     for k in ("<E as FieldElement>::ONE", "<E as miden_air::FieldElement>::ONE", "<E as winter_math::FieldElement>::ONE"):
         consts[k] = F(Lin({}, 1))
-    return mirsym.Interp(fns, natives() + opsum.EXTRA_NATIVES + pm.NATIVES, consts, max_paths=64)
+        consts[k.replace("::ONE", "::ZERO")] = F(Lin({}, 0))
+    import rustlib
+    return mirsym.Interp(fns, natives() + opsum.EXTRA_NATIVES + pm.NATIVES + rustlib.NATIVES, consts, max_paths=64)
 
 
 def run_builder(interp, fn_suffix, cell_consts):
